@@ -319,7 +319,7 @@ def run_case(c, tmp):
     m = build(kind, tmp)
     out = {"saves": [], "loads": []}
     g = 0
-    for sv in c["saves"]:
+    for i_sv, sv in enumerate(c["saves"]):
         g += 1
         if sv.get("natural"):
             m.bad = (i for i in range(3))     # a generator cannot be pickled (set first: reference edits delete ItemSpaces)
@@ -330,7 +330,7 @@ def run_case(c, tmp):
         r["regview"] = regview(m)
         r["models_same"] = (registry() == reg0) and mx.get_models().get("M") is m
         r["path_set"] = (m.path == base) if getattr(m, "path", None) is not None else False
-        if c.get("observe", "all") == "all" or sv is c["saves"][-1]:
+        if (c.get("observe", "all") == "all" and i_sv >= c.get("observe_from", 0)) or sv is c["saves"][-1]:
             r["slots"] = [observe_slot(p, kind, None) for p in slots(base)]
         r["extra"] = extra_listing(tmp, base)
         out["saves"].append(r)
@@ -404,6 +404,8 @@ def do_load(m, base, ld, kind, tmp):
         r["loaded_name"] = x.name
     r["trace"] = INJ.stop()
     r["fired"] = INJ.fired
+    if INJ.fired:
+        r["fault_index"] = ld.get("fault")
     r["exc"] = exc
     r["vals"] = vals
     r["flags"] = flags()
